@@ -264,11 +264,19 @@ func statelessPremise(c *Ctx, components bool) {
 	}
 	c.statelessDone = true
 	c.statelessCompDone = components
-	c.R.Rule("premise (statelessness): S3 field-write ownership + S4 write provenance (no write to memory the call did not allocate) + S5 no caller slice retained + S8 no mutable package state" + map[bool]string{true: " + S13 no tensor parked in component state", false: ""}[components] + ": per-call verdicts extend to call sequences (repeated use of an operand, use after ResetGradContext, a second training step)")
+	c.R.Rule("premise (statelessness): S3 field-write ownership (incl. nested fields of tensors) + S8 no mutable package state + the package-state findings of S4 (its parameter-alias findings and S5 are decided in their home properties C10/C20 and recorded here as notes)" + map[bool]string{true: " + S13 no tensor parked in component state", false: ""}[components] + ": per-call verdicts extend to call sequences (repeated use of an operand, use after ResetGradContext, a second training step)")
 	rules.S3Ownership(c.P, c.A, c.R)
 	rules.S8SharedState(c.P, c.A, c.R)
+	// the two whole-program dataflow analyses are at home in C10 / C20; borrowed here, a construct they cannot
+	// classify is a note, a construct they classify as a violation is a violation
+	c.R.PremiseMode = true
+	c.R.PremiseKeep = func(rule, what, detail string) bool {
+		// writes to package-level state do not depend on the alias analysis of parameters
+		return rule == "S4.write" && strings.Contains(detail, "package variable")
+	}
 	rules.S4Provenance(c.P, c.A, c.R)
 	rules.S5Retention(c.P, c.A, c.R)
+	c.R.PremiseMode = false
 	if components {
 		rules.S13TensorRetention(c.P, c.A, c.R)
 	}
